@@ -329,11 +329,28 @@ def java_diag_lines(out):
     return [l for l in out.splitlines() if ": error:" in l]
 
 
-def erased_java_shape(gen_text, erase_text, out):
+def diamond_context(export, sites):
+    """IR shape: is an erased constructor call (`new C<>(…)`) a direct branch of a conditional?"""
+    conds = {}
+    for path, field in sites or []:
+        if field[0] != "newInfer" or len(path) < 2:
+            continue
+        parent = node_at(export, path[:-1])
+        if parent["n"] == "cond" and path[-1][0] in (1, 2):
+            conds.setdefault(json.dumps(path[:-1]), set()).add(path[-1][0])
+    if any(len(v) == 2 for v in conds.values()):
+        return "diamond-in-both-branches-of-conditional"
+    if conds:
+        return "diamond-in-conditional-branch"
+    return None
+
+
+def erased_java_shape(gen_text, erase_text, out, export=None, sites=None):
     """shape signature of an erased Java program that javac rejects although it accepted the
-    original: derived from the diagnostic and the source line it points to"""
+    original: the class of the diagnostics, and the context — from the IR when an erased
+    constructor call is a branch of a conditional, else from the source line of the diagnostic"""
     lines = erase_text.splitlines()
-    shapes = set()
+    ctxs, classes = set(), set()
     for l in java_diag_lines(out):
         try:
             ln = int(l.split(":")[1])
@@ -349,13 +366,11 @@ def erased_java_shape(gen_text, erase_text, out):
             cls = "no-suitable-method"
         else:
             cls = "other:" + msg.split(";")[0][:40]
-        ctx = "diamond" if "<>" in src else "no-diamond"
-        if "?" in src and ":" in src and src.count("<>") >= 2:
-            ctx = "diamond-in-conditional-branches"
-        elif "?" in src and ":" in src and "<>" in src:
-            ctx = "diamond-in-conditional-branch"
-        shapes.add("%s:%s" % (ctx, cls))
-    return "java:erased:" + "+".join(sorted(shapes)) + ":javac-rejects"
+        classes.add(cls)
+        ctxs.add("diamond" if "<>" in src else "no-diamond")
+    ir = diamond_context(export, sites) if export is not None else None
+    ctx = ir if ir is not None and "diamond" in ctxs else "+".join(sorted(ctxs))
+    return "java:erased:%s:%s:javac-rejects" % (ctx, "+".join(sorted(classes)))
 
 
 # ------------------------------------------------------------------ pipeline
@@ -562,7 +577,7 @@ def judge_diff(run, r, a):
             run.violation(obj, signature="C03:model-disagrees:erasure_diff", no_input=True)
 
 
-def judge_javac(run, r, jres):
+def judge_javac(run, r, jres, sites=None):
     """(c) for one Java program: `jres` = javac verdicts of the original and of the erased text"""
     g, e = r["stages"]["gen"]["texts"]["java"], r["stages"]["erase"]["texts"]["java"]
     (rc_g, out_g), (rc_e, out_e) = jres
@@ -571,7 +586,7 @@ def judge_javac(run, r, jres):
                                    "" if g != e else "(same text)"))
     run.count({"javac": [rc_g == 0, rc_e == 0], "changed": g != e, "spec": spec_key(r["spec"])}, nontrivial=g != e)
     if rc_g == 0 and rc_e != 0:
-        sig = erased_java_shape(g, e, out_e)
+        sig = erased_java_shape(g, e, out_e, r["stages"]["gen"]["export"], sites)
         run.violation({"spec": spec_key(r["spec"]), "what": "erased Java program rejected by javac",
                        "javac": java_diag_lines(out_e)[:5], "javac_tail": out_e[-1500:]}, signature="C03:" + sig)
 
@@ -659,7 +674,8 @@ def judge_all(run, r, w, jres, have_checker):
     if have_checker:
         judge_checker(run, r, w["answers"][n], w["answers"][n + 1])
     if jres is not None:
-        judge_javac(run, r, jres)
+        d = w["answers"][0].get("r")
+        judge_javac(run, r, jres, d.get("sites") if isinstance(d, dict) else None)
 
 
 def add_time(run, key, dt):
